@@ -27,14 +27,14 @@ Definition new_single (sequence : bytes) (style : pstyle) : outcome fileseq :=
   let bare_ext := match dir, basename, ext with [], [], _ :: _ => true | _, _, _ => false end in
   if bare_ext then Ok (set_padding (mkQ dir basename ext [] 0 None style) [])
   else
-    match submatches R_singleFramePattern sequence 3 with
+    (* the frame number is looked for in the file name only *)
+    match submatches R_singleFramePattern basename0 3 with
     | Some [name; frame; ext'] =>
       match opt_frameset frame with
       | None => Ok (set_padding (mkQ dir basename ext [] 0 None style) [])
       | Some f =>
-        let '(dir', base') := path_split name in
         let pad := padding_chars style (Z.of_nat (List.length frame)) in
-        Ok (set_padding (mkQ dir' base' ext' [] 0 (Some f) style) pad)
+        Ok (set_padding (mkQ dir name ext' [] 0 (Some f) style) pad)
       end
     | _ => Ok (set_padding (mkQ dir basename ext [] 0 None style) [])
     end.
